@@ -70,7 +70,9 @@ def case(g, tier, ci):
         # addArray with a marker array of the wrong length (refused); the element is not used afterwards
         ops.append({"op": "el.new", "id": "x"})
         ops.append({"op": "el.addArray", "id": "x", "ch": 1, "wfm": [q(dyadic(r)) for _ in range(N)], "SR": enc(SR),
-                    "kw": [["m1", [0] * N], ["m2", [0] * (N + r.choice([-1, 1, 3]))]], "_errclass": True})
+                    "kw": r.choice([[["m1", [0] * N], ["m2", [0] * (N + r.choice([-1, 1, 3]))]],
+                                    [["m1", [0] * N], ["m2", [0] * N], ["m3", [0] * (N + r.choice([-1, 1]))]],
+                                    [["m3", [1] * (N - 1)]]]), "_errclass": True})
     if ci % 6 == 2:
         # a refused addBluePrint (an empty blueprint) on an occupied channel changes nothing
         ops += [{"op": "bp.new", "id": "empty"}, {"op": "el.addBP", "id": "e", "ch": r.choice(chans), "bp": "empty"}]
